@@ -48,6 +48,10 @@ def instances(seed, n):
     out.append(dict(id="lex-fixed-replace", eff=DEFAULT_EFF,
                     l="%s A\n%s B\n%%\na <+A>'PA'\nb <+B>'PB'\nc <A>'RA'\np <-A>'POP'\n<A>x 'XA'\n<B>x 'XB'\nx 'X0'\n",
                     inputs=["abcpx", "acpx", "abpx", "abppx", "aabcppx", "bacpx", "x"]))
+    # a state pushed onto itself (run-length compressed stack entry), then replaced, then popped
+    out.append(dict(id="lex-fixed-count", eff=DEFAULT_EFF,
+                    l="%s A\n%x B\n%%\np <+INITIAL>'P'\na <+A>'PA'\nr <A>'R'\nb <B>'RB'\n<B>b <+B>'PB'\n<B>c <INITIAL>'RI'\nq <-A>'Q'\n<B>q <-B>'QB'\n<A>x 'XA'\n<B>x 'XB'\nx 'X0'\n",
+                    inputs=["pprqx", "prqx", "pprqqx", "aarqx", "aaqqx", "aaqx", "bbbcqx", "bbqqx", "bbbqx", "ppaarqqqx", "x"]))
     # fixed cases: stack discipline, exclusive states, ties
     out.append(dict(id="lex-fixed-stack", eff=DEFAULT_EFF, l="%x A\n%s B\n%%\n\\( <+A>'LP'\n<A>\\( <+A>'LP2'\n<A>\\) <-A>'RP'\n<A>a 'AA'\na 'A0'\nb <B>'B0'\n<B>c <INITIAL>'C0'\n<A,B>[ ]+ ;\n[ ]+ ;\n",
                     inputs=["((a))a", "(a)(a", "a b a c a", "( ( a ) ) a", ")", "((a)))a", "b a c a"]))
